@@ -252,6 +252,40 @@ func (i *interpreter) euclid(x, d *smt.Term) (q, r *smt.Term) {
 	if m, ok := i.run.memo2[key]; ok {
 		return m[0], m[1]
 	}
+	// x = d*A + B with 0 <= B < d by intervals  =>  q = A, r = B (exact, no witness)
+	if dv, ok := d.ConstInt(); ok && dv.Sign() > 0 && x.Op == smt.OAdd {
+		var aPart, bPart []*smt.Term
+		for _, a := range x.Args {
+			coef := big1
+			base := a
+			if a.Op == smt.OMul && a.Args[0].IsConst() {
+				coef, base = a.Args[0].I, a.Args[1]
+			} else if a.IsConst() {
+				coef, base = a.I, nil
+			}
+			if new(big.Int).Mod(coef, dv).Sign() == 0 {
+				k := c.Int(new(big.Int).Quo(coef, dv))
+				if base == nil {
+					aPart = append(aPart, k)
+				} else {
+					aPart = append(aPart, c.Mul(k, base))
+				}
+			} else {
+				bPart = append(bPart, a)
+			}
+		}
+		if len(aPart) > 0 {
+			bt := c.Int64(0)
+			if len(bPart) > 0 {
+				bt = c.Add(bPart...)
+			}
+			at := c.Add(aPart...)
+			if bt.InRange(big0, new(big.Int).Sub(dv, big1)) && at.Lo != nil && at.Lo.Sign() >= 0 {
+				i.run.memo2[key] = [2]*smt.Term{at, bt}
+				return at, bt
+			}
+		}
+	}
 	var rlo, rhi, qlo, qhi *big.Int
 	if dv, ok := d.ConstInt(); ok {
 		ad := new(big.Int).Abs(dv)
@@ -920,7 +954,7 @@ func (i *interpreter) symConv(dst types.Type, x sym) value {
 		}
 		return i.mkval(n, dk)
 	case isIntKind(x.k) && dk == types.String:
-		unsup("string(rune) of symbolic rune")
+		return i.runeToString(x)
 	}
 	unsup("symbolic conversion %v -> %v", x.k, dst)
 	return nil
@@ -928,6 +962,9 @@ func (i *interpreter) symConv(dst types.Type, x sym) value {
 
 // rangeVar gives a term a tighter interval via an equal fresh variable.
 func (i *interpreter) rangeVar(t *smt.Term, lo, hi *big.Int) *smt.Term {
+	if t.InRange(lo, hi) {
+		return t
+	}
 	c := i.run.ctx
 	key := fmt.Sprintf("rv_%d_%s_%s", t.ID, lo, hi)
 	if v, ok := i.run.memo[key]; ok {
@@ -937,4 +974,28 @@ func (i *interpreter) rangeVar(t *smt.Term, lo, hi *big.Int) *smt.Term {
 	v.AddDef(c.Eq(v, t))
 	i.run.memo[key] = v
 	return v
+}
+
+// runeToString is string(r) for a symbolic integer: UTF-8 encoding (1..3 bytes; surrogates and
+// larger code points are not encoded).
+func (i *interpreter) runeToString(x sym) value {
+	c := i.run.ctx
+	r := x.t
+	b := func(t *smt.Term, lo, hi int64) value {
+		return i.mkval(i.rangeVar(t, big.NewInt(lo), big.NewInt(hi)), types.Uint8)
+	}
+	if r.InRange(big0, big.NewInt(0x7f)) || i.branch(c.And(c.Le(c.Int64(0), r), c.Lt(r, c.Int64(0x80)))) {
+		return symstr{b(r, 0, 0x7f)}
+	}
+	if i.branch(c.And(c.Le(c.Int64(0x80), r), c.Lt(r, c.Int64(0x800)))) {
+		q, rem := i.floorDivPow2(r, 6)
+		return symstr{b(c.Add(c.Int64(0xC0), q), 0xC2, 0xDF), b(c.Add(c.Int64(0x80), rem), 0x80, 0xBF)}
+	}
+	if i.branch(c.And(c.Le(c.Int64(0x800), r), c.Lt(r, c.Int64(0xD800)))) {
+		q1, r1 := i.floorDivPow2(r, 12)
+		q2, r2 := i.floorDivPow2(r1, 6)
+		return symstr{b(c.Add(c.Int64(0xE0), q1), 0xE0, 0xEF), b(c.Add(c.Int64(0x80), q2), 0x80, 0xBF), b(c.Add(c.Int64(0x80), r2), 0x80, 0xBF)}
+	}
+	unsup("string(rune) of a symbolic rune outside U+0000..U+D7FF")
+	return nil
 }
